@@ -199,7 +199,7 @@ CHECKS = {
         note='Trusted: mc/ref/regex.py and mc/ref/glushkov.py. Open content is judged only where the existential and the model-first reading agree. Known findings are listed per (model, wrong words).'),
 }
 
-READY = {'C01', 'C02', 'C03', 'C04', 'C06', 'C11', 'C20', 'C07', 'C08', 'C09', 'C10', 'C12', 'C13', 'C14', 'C15', 'C16', 'C17', 'C18', 'C19'}   # set of property ids to register; None = all of CHECKS
+READY = {'C01', 'C02', 'C03', 'C04', 'C05', 'C06', 'C11', 'C20', 'C07', 'C08', 'C09', 'C10', 'C12', 'C13', 'C14', 'C15', 'C16', 'C17', 'C18', 'C19'}   # set of property ids to register; None = all of CHECKS
 
 PENDING_REASON = 'check not built yet in this session; the design (DESIGN.md section 2) applies bounded exhaustive exploration to it'
 
